@@ -557,6 +557,32 @@ struct Run{
       Json cfg=Json::object(); cfg["nx"]=(int)nx; cfg["nsun"]=(int)nsun; cfg["nrhos"]=(int)nrhos; cfg["nscalars"]=(int)nsc; cfg["t0"]=t_ini; cfg["seed"]=(long long)opiseed(); cfg["grid"]="lin"; cfg["xa"]=1.0; cfg["xb"]=2.0;
       Json ro=Json::object(); ro["cfg"]=cfg; op_reini(ro); return;
     }
+    else if(kind=="expect_dim"){
+      // an operator of another dimension handed to an expectation-value query: the call ends in the library's exception, and until then nothing
+      // outside the operands and the solver's own buffers may be read (the scratch of the evolution is sized by the solver's dimension)
+      unsigned m=2+(unsigned)(o["grow"].as_int(0)+o["variant"].as_int(0))%5; if(m==nsun) m=(nsun==6)?2+(unsigned)(o["grow"].as_int(0)%4):nsun+1;
+      int variant=(int)(o["variant"].as_int(0)%6); if(nx<2) variant%=2;
+      unsigned ir=(unsigned)(o["grow"].as_int(0)%nrhos),ix=(unsigned)(o["variant"].as_int(0)%nx);
+      Rng r((uint64_t)opiseed()); std::vector<double> oc(m*m); for(size_t k=0;k<oc.size();k++) oc[k]=r.uniform(-1,1);
+      double xi=grid.size()>=2?0.5*(grid.front()+grid.back()):0.0; double got=0;
+      std::vector<double> st_before(live->rho_ptr(0,0),live->rho_ptr(0,0)+(nsun*nsun*nrhos+nsc)*nx);
+      rc=lib_call([&]{
+        squids::SU_vector op(oc); std::vector<bool> avr(m*(m-1)/2+1);
+        switch(variant){
+          case 0: got=live->GetExpectationValue(op,ir,ix); break;
+          case 1: got=live->GetExpectationValue(op,ir,ix,1e9,avr); break;
+          case 2: got=live->GetExpectationValueD(op,ir,xi); break;
+          case 3: got=live->GetExpectationValueD(op,ir,xi,1e9,avr); break;
+          case 4:{ squids::SQuIDS::expectationValueDBuffer buf(nsun); got=live->GetExpectationValueD(op,ir,xi,buf); break; }
+          default:{ squids::SQuIDS::expectationValueDBuffer buf(nsun); got=live->GetExpectationValueD(op,ir,xi,buf,1e9,avr); }
+        }
+      });
+      (void)got; c.ctr->add(m>nsun?"probe_expect_operator_larger_than_solver":"probe_expect_operator_smaller_than_solver");
+      shp((long)variant*10+(m>nsun));
+      if(rc!=CALL_EXCEPTION) c.ctr->add("probe_bad_call_not_rejected");
+      if(memcmp(&st_before[0],live->rho_ptr(0,0),st_before.size()*sizeof(double))!=0){ c.violation("C15","state:changed-by-query","expect_dim","an expectation-value query with an operator of another dimension changed the stored state"); }
+      return;
+    }
     else if(kind=="get_i"){ if(nx<2) return; double xo=o["above"].as_bool(true)?grid.back()+1.0:grid.front()-1.0; rc=lib_call([&]{ (void)live->Get_i(xo); }); }
     else return;
     if(rc!=CALL_EXCEPTION) c.ctr->add("probe_bad_call_not_rejected");   // rejection of these calls is a C17 matter; here only memory safety is judged
@@ -672,7 +698,7 @@ struct SolverEngine: Engine{
         else if(k==10){ Json o=Json::object(); o["op"]="limits"; o["hmin"]=(int)r.below(4); o["hmax"]=(int)r.below(3); ops.push(o); if(r.chance(0.6)){ evolve(r.chance(0.5)?r.uniform(1e-5,5e-3):dtgen()); } }
         else if(k==11){ Json o=Json::object(); o["op"]="any_numerics"; o["on"]=r.chance(0.4); ops.push(o); evolve(dtgen()); }
         else if(k==9){ Json o=Json::object(); o["op"]="evolve_fail"; o["at"]=(int)r.below(4); o["adaptive"]=r.chance(0.6); o["vs"]=(long long)r.below(100000); ops.push(o); }
-        else{ Json o=Json::object(); o["op"]="bad_call"; static const char* bk[]={"xrange_size","xrange_unsorted","xrange_scale","xrange_log0","get_i","ini_dim7","ini_dim1"}; o["kind"]=bk[r.below(7)]; o["above"]=r.chance(0.5); o["grow"]=(int)r.below(4); ops.push(o); }
+        else{ Json o=Json::object(); o["op"]="bad_call"; static const char* bk[]={"xrange_size","xrange_unsorted","xrange_scale","xrange_log0","get_i","ini_dim7","ini_dim1","expect_dim","expect_dim","expect_dim"}; o["kind"]=bk[r.below(10)]; o["above"]=r.chance(0.5); o["grow"]=(int)r.below(4); o["variant"]=(int)r.below(6); ops.push(o); }
       }
     }
     p["ops"]=ops;
